@@ -67,6 +67,7 @@ R = {
     "cmp_text":           ("thorough", ["C12"], "bounded", RB, 1800),
     "truthiness":         ("quick", ["C10"], "bounded", RB, 900),
     "xor_classifies":     ("quick", ["C10"], "bounded", RB, 900),
+    "end_expression_returns_to_caller": ("quick", ["C06"], "bounded", RB + "; at most 3 active calls, 4 instruction addresses", 900),
     "defer_protocol":     ("quick", ["C08"], "bounded", RB, 900),
     "access_list":        ("quick", ["C16"], "bounded", RB, 900),
     # ~32 min (measured 1903 s): the concatenation walker through ops::access on one fixed nested shape, index symbolic
